@@ -75,8 +75,19 @@ def run(prog: Program, res: Result) -> None:
     res.ob(not issues, f"{M.relpath}: _generate_agents yields one agent per element of range(0, n_agents) in serial and pooled mode", "generate_agents")
     ip = prog.func(f"{ABSTRACT}._init_population")
     calls = [n for n in own_nodes(ip) if isinstance(n, ast.Call) and dotted(n.func) == "self._generate_agents"]
-    ok = len(calls) == 1 and len(calls[0].args) == 1 and dotted(calls[0].args[0]) == "self._config.population_size" \
-        and isinstance(parent(calls[0]), ast.Assign) and dotted(parent(calls[0]).targets[0]) == "self._population"
+    def _n_arg(c):
+        a = c.args[0] if c.args else next((k.value for k in c.keywords if k.arg == "n_agents"), None)
+        return origin(ip.node, a) if isinstance(a, ast.Name) else a
+    ok = len(calls) == 1 and dotted(_n_arg(calls[0])) == "self._config.population_size"
+    if ok:
+        st = parent(calls[0])
+        tgt = st.targets[0] if isinstance(st, ast.Assign) else None
+        if isinstance(tgt, ast.Name):
+            uses = [n for n in own_nodes(ip) if isinstance(n, ast.Assign) and dotted(n.targets[0]) == "self._population"
+                    and isinstance(n.value, ast.Name) and n.value.id == tgt.id]
+            ok = len(uses) == 1
+        else:
+            ok = tgt is not None and dotted(tgt) == "self._population"
     res.ob(ok, f"{ip.loc()} _init_population: self._population = self._generate_agents(self._config.population_size)", "init_population")
     if not ok:
         bad("R1-init-population-size", ip.node, "_init_population does not create exactly self._config.population_size agents",
